@@ -937,4 +937,125 @@ theorem core_result {c : Cfg} {l : LoopSt} {j : Nat} {r : Res} (h : Core c l)
       · next e => subst e; rfl
       · rfl
 
+
+/-! ### frame facts used by the global invariants -/
+
+/-- The enqueue arm leaves `done/failed/dispatched` of every job as they were (the new job has all three false). -/
+theorem enq_fields {c : Cfg} {l : LoopSt} (hw : c.wiring.lateEnqueueChecksDone = true)
+    (hwf : ∀ d ∈ c.depsOf l.jobs.length, d < l.jobs.length) :
+    (enq c l l.jobs.length).jobs.length = l.jobs.length + 1 ∧
+    (∀ k, (job (enq c l l.jobs.length) k).done = (job l k).done) ∧
+    (∀ k, (job (enq c l l.jobs.length) k).failed = (job l k).failed) ∧
+    (∀ k, (job (enq c l l.jobs.length) k).dispatched = (job l k).dispatched) ∧
+    (∀ k, k < l.jobs.length → (job (enq c l l.jobs.length) k).invalid = (job l k).invalid) := by
+  have S := regDeps_spec c.wiring hw l.jobs.length (c.depsOf l.jobs.length) l.jobs {} hwf
+  generalize hjobs1 : (regDeps c.wiring l.jobs l.jobs.length {} (c.depsOf l.jobs.length)).1 = jobs1 at S
+  generalize hme : (regDeps c.wiring l.jobs l.jobs.length {} (c.depsOf l.jobs.length)).2 = me at S
+  have ej : (enq c l l.jobs.length).jobs = jobs1 ++ [me] := by rw [enq_jobs, hjobs1, hme]
+  have elen : (enq c l l.jobs.length).jobs.length = l.jobs.length + 1 := by rw [ej]; simp [S.len]
+  have jlow : ∀ k, k < l.jobs.length → job (enq c l l.jobs.length) k = getJob jobs1 k := by
+    intro k hk; rw [job, ej, getJob_append_left _ _ _ (by rw [S.len]; exact hk)]
+  have jme : job (enq c l l.jobs.length) l.jobs.length = me := by
+    rw [job, ej, ← S.len, getJob_append_self]
+  have jhigh : ∀ k, l.jobs.length < k → job (enq c l l.jobs.length) k = {} := by
+    intro k hk; apply job_of_ge; rw [elen]; omega
+  refine ⟨elen, ?_, ?_, ?_, ?_⟩
+  · intro k
+    rcases Nat.lt_trichotomy k l.jobs.length with hk | hk | hk
+    · rw [jlow k hk, S.jdone]; rfl
+    · subst hk; rw [jme, S.done, job_of_ge l _ (Nat.le_refl _)]
+    · rw [jhigh k hk, job_of_ge l _ (Nat.le_of_lt hk)]
+  · intro k
+    rcases Nat.lt_trichotomy k l.jobs.length with hk | hk | hk
+    · rw [jlow k hk, S.jfailed]; rfl
+    · subst hk; rw [jme, S.failed, job_of_ge l _ (Nat.le_refl _)]
+    · rw [jhigh k hk, job_of_ge l _ (Nat.le_of_lt hk)]
+  · intro k
+    rcases Nat.lt_trichotomy k l.jobs.length with hk | hk | hk
+    · rw [jlow k hk, S.jdisp]; rfl
+    · subst hk; rw [jme, S.disp, job_of_ge l _ (Nat.le_refl _)]
+    · rw [jhigh k hk, job_of_ge l _ (Nat.le_of_lt hk)]
+  · intro k hk; rw [jlow k hk, S.jinv]; rfl
+
+/-- The result arm when it returns early (fail-fast, failing result). -/
+theorem result_exit {c : Cfg} {l : LoopSt} {j : Nat} {r : Res} (hj : j < l.jobs.length)
+    (he : r.isErr = true) (hc : c.coe = false) :
+    (result c l j r).phase = .draining ∧ (result c l j r).err = [r] ∧
+    (result c l j r).jobs.length = l.jobs.length ∧
+    (result c l j r).pending = l.pending - 1 ∧ (result c l j r).ongoing = l.ongoing - 1 ∧
+    (result c l j r).ready = l.ready ∧ (result c l j r).waiting = l.waiting ∧ (result c l j r).enqNil = l.enqNil ∧
+    (∀ k, (job (result c l j r) k).done = ((job l k).done || decide (k = j))) ∧
+    (∀ k, (job (result c l j r) k).failed = ((job l k).failed || decide (k = j))) ∧
+    (∀ k, (job (result c l j r) k).dispatched = (job l k).dispatched) ∧
+    (∀ k, (job (result c l j r) k).invalid = (job l k).invalid) := by
+  have hres : result c l j r =
+      { setJob { setJob l j (job l j).setDone with pending := l.pending - 1, ongoing := l.ongoing - 1 } j
+          (job { setJob l j (job l j).setDone with pending := l.pending - 1, ongoing := l.ongoing - 1 } j).setFailed
+        with err := [r], phase := .draining } := by
+    unfold result; simp [he, hc]
+  have jj : ∀ k, job (result c l j r) k = if k = j then (job l j).setDone.setFailed else job l k := by
+    intro k; rw [hres]
+    show job (setJob _ j _) k = _
+    rw [job_setJob]
+    simp only [setJob_length, hj, and_true]
+    split
+    · show (job (setJob l j (job l j).setDone) j).setFailed = _
+      rw [job_setJob]; simp [hj]
+    · next hk =>
+      show job (setJob l j (job l j).setDone) k = _
+      rw [job_setJob]; simp [hk]
+  refine ⟨by rw [hres], by rw [hres], by rw [hres]; simp, by rw [hres]; simp, by rw [hres]; simp,
+          by rw [hres]; simp, by rw [hres]; simp, by rw [hres]; simp, ?_, ?_, ?_, ?_⟩
+  · intro k; rw [jj]; split
+    · next e => subst e; simp
+    · next e => simp [e]
+  · intro k; rw [jj]; split
+    · next e => subst e; simp
+    · next e => simp [e]
+  · intro k; rw [jj]; split
+    · next e => subst e; rfl
+    · rfl
+  · intro k; rw [jj]; split
+    · next e => subst e; rfl
+    · rfl
+
+theorem dispatch_gate {c : Cfg} {l l' : LoopSt} {j : Nat} (hg : c.wiring.gateDispatch = true)
+    (hd : dispatch c l = some (j, l')) :
+    l.ongoing < c.N ∧ l'.ongoing = l.ongoing + 1 ∧ l'.jobs.length = l.jobs.length ∧ l.ready = j :: l'.ready
+    ∧ l'.pending = l.pending ∧ l'.waiting = l.waiting ∧ l'.phase = l.phase ∧ l'.enqNil = l.enqNil ∧ l'.err = l.err
+    ∧ (∀ k, (job l' k).done = (job l k).done) ∧ (∀ k, (job l' k).failed = (job l k).failed)
+    ∧ (∀ k, (job l' k).invalid = (job l k).invalid)
+    ∧ (∀ k, (job l' k).dispatched = ((job l k).dispatched || (decide (k = j) && decide (j < l.jobs.length)))) := by
+  unfold dispatch at hd
+  split at hd
+  · simp at hd
+  · next j0 rest hready =>
+    simp only [hg, Bool.true_and] at hd
+    split at hd
+    · simp at hd
+    · next hlt =>
+      simp only [Option.some.injEq, Prod.mk.injEq] at hd
+      obtain ⟨rfl, rfl⟩ := hd
+      have jj : ∀ k, job { setJob l j0 (job l j0).setDispatched with ready := rest, ongoing := l.ongoing + 1 } k
+                  = if k = j0 ∧ j0 < l.jobs.length then (job l j0).setDispatched else job l k := by
+        intro k
+        show job (setJob l j0 (job l j0).setDispatched) k = _
+        rw [job_setJob]
+      refine ⟨by simpa using hlt, rfl, by simp, by simp [hready], rfl, rfl, rfl, rfl, rfl, ?_, ?_, ?_, ?_⟩
+      · intro k; rw [jj]; split
+        · next e => obtain ⟨rfl, _⟩ := e; rfl
+        · rfl
+      · intro k; rw [jj]; split
+        · next e => obtain ⟨rfl, _⟩ := e; rfl
+        · rfl
+      · intro k; rw [jj]; split
+        · next e => obtain ⟨rfl, _⟩ := e; rfl
+        · rfl
+      · intro k; rw [jj]; split
+        · next e => obtain ⟨rfl, h2⟩ := e; simp [h2]
+        · next e =>
+          by_cases hk : k = j0
+          · subst hk; simp at e; simp [e]; omega
+          · simp [hk]
+
 end Sched.Loop
